@@ -1040,7 +1040,7 @@ func c18_4(c *core.Ctx, p *core.Prog) {
 	if !a.ok(c) {
 		return
 	}
-	fn := a.sendFn
+	fn := a.apportionFn()
 	n := 0
 	core.EachInstr(fn, func(i ssa.Instruction) {
 		al, ok := i.(*ssa.Alloc)
